@@ -198,7 +198,7 @@ def run(tier: str, seed: int, t0: float) -> int:
                 for m in node.marks:
                     if m.attrs:
                         other = m.type.create({k: (v + "2" if isinstance(v, str) else v) for k, v in m.attrs.items()})
-                        if not other.eq(m):
+                        if other.attrs != m.attrs:
                             invert_events(b, rd, di, RemoveNodeMarkStep(pos, other))
                             invert_events(b, rd, di, AddNodeMarkStep(pos, other))
         jobs.append(("Trace_Doc", b, f"T invert[{name}]"))
